@@ -286,8 +286,50 @@ def check(run: Run) -> None:
         from . import c01
         R.share(run, "C03.h", c01, ["C01.d2"])
 
+    with run.obligation("C03.i", "K11", "run-time make_passive prunes the activity trie upwards: the child removed from a parent is the pruned node's OWN slot (read before the "
+                        "cursor moves to the parent), so passivating one structural input never erases - and thereby unsubscribes - a sibling that is still active"):
+        fa = R.fn(run, "src/hgraph/types/time_series/ts_input.cpp", "TSInput::make_passive")
+        cn = R.Canon()
+        erases = [c for c in R.calls(fa, "erase") if isinstance(c.fn, C.Member) and cn(c.fn.obj).endswith("children")]
+        run.sites(len(erases), 1, "trie prune erase")
+        for c in erases:
+            blk = next((b for b in fa.body.walk() if isinstance(b, C.Block) and any(any(x is c for x in st.walk()) for st in b.stmts)), None)
+            inner = [b for b in fa.body.walk() if isinstance(b, C.Block) and any(any(x is c for x in st.walk()) for st in b.stmts)]
+            blk = inner[-1]
+            idx_e = next(i for i, st in enumerate(blk.stmts) if any(x is c for x in st.walk()))
+            recv = cn(c.fn.obj).rsplit("->", 1)[0]                         # the node whose children are erased from
+            key = c.args[0] if c.args else None
+            run.count(1, "C03.i")
+            decl_at = {d.name: (i, d) for i, st in enumerate(blk.stmts) if isinstance(st, C.Decl) for d in st.decls if d.name and d.init is not None}
+            # the node X whose slot is the key, and where that slot is read
+            if isinstance(key, C.Id) and key.name in decl_at:
+                i_read, kd = decl_at[key.name]
+                key_src = cn(kd.init)
+            else:
+                i_read, key_src = idx_e, (cn(key) if key is not None else "")
+            ok = False
+            m_ = re.fullmatch(r"(\w+)->slot", key_src)
+            if m_:
+                x = m_.group(1)
+                moves = [i for i, st in enumerate(blk.stmts) if isinstance(st, C.ExprStmt) and isinstance(st.e, C.Binary) and st.e.op == "=" and cn(st.e.l) == x]
+                is_parent_of_x = lambda e_txt: e_txt == f"{x}->parent" or (e_txt in decl_at and cn(decl_at[e_txt][1].init) == f"{x}->parent" and
+                                                                          decl_at[e_txt][0] < (moves[0] if moves else len(blk.stmts)))
+                moved_up = [i for i in moves if is_parent_of_x(cn(blk.stmts[i].e.r))]
+                if recv == x:
+                    # erase through the cursor itself: the cursor must have moved to the parent after the slot was read
+                    ok = bool(moved_up) and i_read < moved_up[0] < idx_e and len(moves) == 1
+                else:
+                    # erase through a separate handle on the parent: X must still be the pruned node when its slot is read
+                    ok = is_parent_of_x(recv) and (not moves or i_read < moves[0])
+            if not ok:
+                run.finding("C03.i", "TSInput::make_passive:prune-erases-wrong-slot", "the trie prune erases a child slot that is not the pruned node's own slot read before "
+                            f"the cursor moved to the parent (erase key `{cn(key) if key is not None else '?'}` on `{cn(c.fn.obj)}`): a sibling input that is still active "
+                            "is dropped from the activity trie and stops waking the node", loc=fa.loc(c))
+
 
 VARIANTS = [
+    {"id": "i-prune-reads-slot-after-move", "expect": "C03.i", "edits": [{"file": "src/hgraph/types/time_series/ts_input.cpp", "find": "            const auto slot = active->slot;\n            active = parent;\n            static_cast<void>(active->children.erase(slot));", "replace": "            active = parent;\n            static_cast<void>(active->children.erase(active->slot));"}]},
+    {"id": "i-twin-erase-through-parent-first", "expect": None, "edits": [{"file": "src/hgraph/types/time_series/ts_input.cpp", "find": "            const auto slot = active->slot;\n            active = parent;\n            static_cast<void>(active->children.erase(slot));", "replace": "            const auto slot = active->slot;\n            static_cast<void>(parent->children.erase(slot));\n            active = parent;"}]},
     {"id": "e-passive-marker-ignores-declared-active-list", "expect": "C03.e", "edits": [{"file": NODE, "find": "        std::vector<std::size_t> active;\n        if (schema.active_inputs.has_value()) { active = *schema.active_inputs; }\n        else\n        {\n            active.resize(input_count);\n            for (std::size_t slot = 0; slot < input_count; ++slot) { active[slot] = slot; }\n        }", "replace": "        std::vector<std::size_t> active(input_count);\n        for (std::size_t slot = 0; slot < input_count; ++slot) { active[slot] = slot; }"}]},
     {"id": "a-activate-all", "expect": "C03.a", "edits": [{"file": NODE, "find": "            for (const std::size_t slot : *slots)\n            {\n                if (slot >= schema->field_count()) { throw std::out_of_range(\"Node active input selector is out of range\"); }\n                bundle[slot].make_active();", "replace": "            for (std::size_t slot = 0; slot < schema->field_count(); ++slot)\n            {\n                bundle[slot].make_active();"}]},
     {"id": "a-stop-skips-structural", "expect": "C03.a", "edits": [{"file": NODE, "find": "                bundle[slot].make_passive();\n            }\n        }\n\n        [[nodiscard]] bool ready_to_evaluate", "replace": "                static_cast<void>(slot);\n            }\n        }\n\n        [[nodiscard]] bool ready_to_evaluate"}]},
